@@ -101,7 +101,7 @@ class C03:
     level = "exploration"
     design_ref = "DESIGN.md 3.3"
     tiers = {"quick": {"runs": 4000, "budget_s": 80, "chunk": 10, "twice_every": 8, "shrink_s": 60},
-             "thorough": {"runs": 30000, "budget_s": 840, "chunk": 8, "twice_every": 16, "shrink_s": 180}}
+             "thorough": {"runs": 250000, "budget_s": 840, "chunk": 8, "twice_every": 16, "shrink_s": 180}}
     rule = ("one run = one experiment with a sampled sharing pattern (learner / environment / evaluator objects listed in several "
             "triples, shared chunk()/cache() prefixes, shuffle fan-out, cross product or tuple list), component failures injected at "
             "sampled positions (environment read at index k incl. around the 25-item cache slice, learner predict/learn at its k-th "
